@@ -438,7 +438,10 @@ def random_program(rng, size=None):
     for fs in req_forms:
         if not any(l['required'] for l in fs['lines']):
             fs['lines'][0]['required'] = True
-        request.append(rng.choice(fs['_fulls']))
+        if len(fs['_fulls']) > 1 and rng.random() < 0.4:
+            request.extend(rng.sample(fs['_fulls'], 2))      # two numbered copies of the same form, both requested
+        else:
+            request.append(rng.choice(fs['_fulls']))
     field_names = []
     if rng.random() < 0.2:
         fs = rng.choice(req_forms)
